@@ -1205,6 +1205,13 @@ def m_min(it, *a, **kw):
     return acc
 
 
+@model(abs)
+def m_abs(it, x):
+    if isinstance(x, SInt):
+        return SInt(z3.If(x.t >= 0, x.t, -x.t))
+    return it.native(abs, (x,), {})
+
+
 @model(max)
 def m_max(it, *a, **kw):
     if not has_sym(a) and not has_sym(kw):
